@@ -6,7 +6,8 @@ spec/crypto/Memsec.tla  (memcmp / memeq at bit level on a 16-bit two's-complemen
        length <= 2 over {0,1,127,128,255} with loop invariants and result = LexCmp / equality
   M1 : TLC prints the expected memcmp/memeq result for all 65 536 one-byte pairs and for a two-byte input
        realising every (res, diff) pair; the real functions are called on each
-  M3 : seeded random longer strings through the real functions, every call validated by TraceMemsec
+  M3 : longer strings through the real functions, every call validated by TraceMemsec: all single-position differences
+       for every length 1..24 (72) and seeded random strings
 """
 import json
 import os
@@ -65,9 +66,10 @@ def run(ctx):
                            b["fn"], b["a"], b["b"], b.get("want"), b.get("got", b.get("panic"))), payload=b)
 
     # 3. M3: random longer strings
-    n = 20000 if ctx.thorough else 3000
+    n = 20000 if ctx.thorough else 2000
     tr = ctx.path("trace.ndjson")
-    ctx.run_bin(binary, ["memsec-trace", "--seed", ctx.seed, "--n", n, "--maxlen", 64 if ctx.thorough else 40, "--out", tr])
+    ctx.run_bin(binary, ["memsec-trace", "--seed", ctx.seed, "--n", n, "--maxlen", 64 if ctx.thorough else 40,
+                         "--single", 72 if ctx.thorough else 24, "--out", tr])
     ok, matched, total, first = ctx.tlc_trace("crypto", "TraceMemsec", "TraceMemsec.cfg", tr)
     ctx.cov["traces_validated_against_impl"] += 1
     ctx.cov["evaluations"] += total
@@ -114,5 +116,6 @@ def run(ctx):
         rule="MC: bit-level step/final/xor-or tables exhaustively (511x511, 511, 256x256x5) and both loops over all string pairs "
              "of length <= 2 (3 in thorough) over a 5-byte alphabet; M1: every one-byte pair and a two-byte input for every "
              "(res, diff) accumulator/difference pair run through the real memcmp/memeq against TLC's expected values; "
-             "M3: seeded random strings up to 40 (64) bytes validated call by call",
+             "M3: every single-position difference of strings of length 1..24 (72) and seeded random strings up to 40 (64) bytes "
+             "validated call by call",
         exhaustive=False)
